@@ -554,6 +554,13 @@ func writesInput(f *ssa.Function, in ssa.Instruction) string {
 				}
 			}
 		}
+		// sync.Map kept on an input: state that survives the call (a memo, a negative cache)
+		if strings.HasPrefix(n, "(*sync.Map).") && len(cc.Args) > 0 && der(cc.Args[0]) {
+			switch calleeShort(cc) {
+			case "Store", "LoadOrStore", "Swap", "CompareAndSwap", "Delete", "LoadAndDelete", "CompareAndDelete", "Clear":
+				return calleeShort(cc) + " on the sync.Map " + firstN(pathOf(cc.Args[0]), 50) + ", which belongs to its input (state that survives the call)"
+			}
+		}
 		// destination-writing calls of the crypto interfaces: Open/Seal append to dst (dst[:0] reuses its storage),
 		// XORKeyStream / Encrypt / Decrypt write dst in place
 		if cc.IsInvoke() && len(cc.Args) > 0 {
